@@ -19,8 +19,8 @@ EXTENDS Lifecycle, Json, IOUtils
 Nodes == ndJsonDeserialize(IOEnv.LC_NODES)
 Cases == JsonDeserialize(IOEnv.LC_CASES)
 Plan  == Cases.plan
-K == WithCrash(MkK(Plan.D, Plan.S, Plan.W, Plan.maxd, SeqToSet(Plan.cd), SeqToSet(Plan.kinds), Plan.pairs,
-         SeqToSet(Plan.bury), Plan.rev, Plan.mir, Plan.mode, Plan.empty), Plan.crash)
+K == WithSwitches(WithCrash(MkK(Plan.D, Plan.S, Plan.W, Plan.maxd, SeqToSet(Plan.cd), SeqToSet(Plan.kinds), Plan.pairs,
+         SeqToSet(Plan.bury), Plan.rev, Plan.mir, Plan.mode, Plan.empty), Plan.crash), Plan.markFirst, Plan.dropOrphans)
 Reqs == Cases.requests
 RC(c) == CASE c = 1 -> "ok" [] c = 2 -> "panic" [] OTHER -> "err"
 
@@ -54,6 +54,10 @@ RestartEq(nd) == /\ ~nd.rs.failed
                  /\ nd.rs.mark = nd.pre.mark
                  /\ \A d \in 1..K.maxd : \A f \in ChanFields : nd.rs.chans[d][f] = nd.pre.chans[d][f]
                  /\ nd.rs.pst = nd.pre.pst /\ nd.rs.lis = nd.pre.lis
+                 \* the persisted tracker holds exactly the running tracker's listeners (a listener left in
+                 \* the store after its channel was pruned is a change that never became durable); only an
+                 \* interrupted setup_channel (crash plans) may legitimately leave one behind
+                 /\ (K.crash \/ nd.pre.pl = nd.pre.lis)
                  /\ nd.rs.feq
 \* (a state without a signer is only reached through a restore that failed)
 C15r == ~Nodes[node + 1].pre.dead /\ RestartEq(Nodes[node + 1])
